@@ -547,6 +547,8 @@ class SingleWindowSplitter(BaseSplitter):
     def _split(self, y):
         window_length = check_window_length(self.window_length)
         fh = _check_fh(self.fh)
+        if window_length is not None:
+            _check_window_lengths(y, fh, window_length, None)
 
         end = _get_end(y, fh) - 1
         start = 0 if window_length is None else end - window_length
